@@ -20,6 +20,8 @@ pub mod queries;
 mod unknown_item_path;
 mod utils;
 mod version_matcher;
+#[cfg(pavex_verif)]
+pub mod verif_sched;
 
 // Cross-cutting types re-exported at crate root
 pub use collection::CrateCollection;
